@@ -14,6 +14,13 @@ raw monitors `wakeAfterDone` / `depsExitedBefore` proved sound here.
 The model (`Sched.Model`) contains the two repairs of `startExecution`: a caller that
 finds a `run: once` / `when_changed` task already registered waits until that execution
 has really finished (`wWake` needs `execResultOf`) and returns its outcome.
+
+Which statements say what (audit, session 3).  The acceptor ENFORCES "all dependencies returned, successfully" as
+guards of `depsReacq` / `depsDone ok`; `C01_deps_done_ok`, `C01_deps_explicit`, `C01_cmd_start` turn those guards
+into an invariant of every reachable configuration (the guard is read back, globally).  What they assure about the
+real executor is therefore: every log it writes is accepted — the correspondence check — and in an accepted log no
+command starts before the dependencies are done.  `C01_shared`, `C01_shared_dep`, `C01_wake_after_done` and the
+soundness of the raw monitors `wakeAfterDone` / `depsExitedBefore` are statements about whole traces.
 -/
 namespace Props.C01
 open TaskModel.Sched
